@@ -53,6 +53,11 @@ pub fn replay(cases: &str, verdicts: &str) {
                 let class = format!("deg{} {}{} n{}", deg.min(3), ends, big, if n == 1 { "=1" } else if n <= 12 { "<=12" } else { ">12" });
                 // the composite rule's own exact value pins every weight (for degree <= 1 it is the exact integral)
                 v.check(g.map(|g| close(g, rule)).unwrap_or(false), "trapz", &class, &c, json!({"got": g, "rule": rule}));
+                for e in [-60i32, 30] {
+                    let s = 2f64.powi(e);
+                    let gs = guard(|| trapz(|x| f(x / s), a * s, b * s, n));
+                    v.check(gs.map(|g| g.is_finite() && (g - rule * s).abs() <= sc * s * 2f64.powi(-40)).unwrap_or(false), "trapz axis-rescaled", &class, &json!({"case": c, "scale_log2": e}), json!({"got": gs, "rule_times_s": rule * s}));
+                }
                 // swapped limits change the sign; linearity in the integrand
                 let g2 = guard(|| trapz(&f, b, a, n));
                 v.check(match (g, g2) { (Some(x), Some(y)) => close(y, -x), _ => false }, "trapz sign", &class, &c, json!({"fwd": g, "rev": g2}));
@@ -87,6 +92,12 @@ pub fn replay(cases: &str, verdicts: &str) {
                 v.check(g.map(|g| close(g, exact)).unwrap_or(false), "quad5", &class, &c, json!({"got": g, "exact": exact}));
                 let g2 = guard(|| quad5(&f, b, a));
                 v.check(match (g, g2) { (Some(x), Some(y)) => close(y, -x), _ => false }, "quad5 sign", &class, &c, json!({"fwd": g, "rev": g2}));
+                // the axis in other units: int_{as}^{bs} f(x / s) dx = s int_a^b f (s = 2^-60, 2^30; exact rescaling of nodes and weights)
+                for e in [-60i32, 30] {
+                    let s = 2f64.powi(e);
+                    let gs = guard(|| quad5(|x| f(x / s), a * s, b * s));
+                    v.check(gs.map(|g| g.is_finite() && (g - exact * s).abs() <= sc * s * 2f64.powi(-40)).unwrap_or(false), "quad5 axis-rescaled", &class, &json!({"case": c, "scale_log2": e}), json!({"got": gs, "exact_times_s": exact * s}));
+                }
                 let g3 = guard(|| quad5(|x| 3.0 * f(x) + 2.0, a, b));
                 v.check(match (g, g3) { (Some(x), Some(y)) => (y - (3.0 * x + 2.0 * (b - a))).abs() <= 4.0 * sc.max((b - a).abs() * 2.0) * 2f64.powi(-40), _ => false }, "quad5 linear", &class, &c, json!({"f": g, "3f+2": g3}));
             }
